@@ -18,6 +18,7 @@ META = {
               "only the go branch's JoinHandle drop glue reaches it); zobrist toggles / accumulator updates -> no-ops as in C02 (key content is C03/C15)",
               "native replay of a position_cmd counterexample uses NO stub: the real FEN reader and the real generator run on the FEN text of the counterexample position"],
     "bounds": ["move lists of up to 5 arbitrary moves", "single-move text: ALL 7-bit ASCII strings of length 4 and of length 5",
+               "position command harnesses: every loop unwound at most 9 times (memcmp 200) with unwinding assertions - a bound, not an assumption",
                "position command: ONE move after the FEN, from ANY valid position (no piece-count bound), split by moving kind x side; longer move lists follow by "
                "induction over the handler's loop only if the loop treats every element alike (not checked beyond one iteration)"],
     "outside": ["parsing of whole 'position ... moves ...' command lines (nom over long strings, Vec, String) and reading the FEN text (C06, string code) "
@@ -56,13 +57,21 @@ STUBS = [
     ("crate::engine::eval::IncrementalEvalFields::set_at", "c02::nop_eval_set"),
     ("crate::engine::eval::IncrementalEvalFields::remove_at", "c02::nop_eval_remove"),
 ]
+SEQ_UNWIND = 9
 KINDS = ["pawn", "knight", "bishop", "rook", "queen", "king"]
 
 
-def inst_cmd(kind, side):
-    name = f"c17_position_cmd_{KINDS[kind]}_{'wb'[side]}"
+PATTERNS = {1: ("takeback", "'position fen F moves m' then 'position fen F'"), 2: ("extend", "'position fen F' then 'position fen F moves m'"),
+            3: ("again", "'position fen F moves m' then 'position fen F moves m2' (m2 the same or another legal move)")}
+
+
+def inst_cmd(kind, side, pattern=0):
+    if pattern == 0:
+        name = f"c17_position_cmd_{KINDS[kind]}_{'wb'[side]}"
+    else:
+        name = f"c17_position_seq_{PATTERNS[pattern][0]}_{'wb'[side]}"
     attrs = ["#[kani::proof]"] + [f"#[kani::stub({a}, {b})]" for a, b in STUBS]
-    return name, "\n".join(attrs) + f"\npub fn {name}() {{ c17::position_cmd({kind}, {side}); }}\n"
+    return name, "\n".join(attrs) + f"\npub fn {name}() {{ c17::position_cmd({kind}, {side}, {pattern}); }}\n"
 
 
 def jobs(tier, seed):
@@ -77,8 +86,15 @@ def jobs(tier, seed):
         for side in (0, 1):
             name, src = inst_cmd(kind, side)
             js.append(Job(name, f"Uci::execute(position fen <any valid position> moves <m>), m = any legal {KINDS[kind]} move, {'white' if side == 0 else 'black'} to move",
-                          gen=src, timeout=2400, mem_gb=16, weight_gb=2.0, checks="functional", witness=False,
+                          gen=src, timeout=2400, mem_gb=16, weight_gb=2.0, checks="functional", witness=False, unwind=SEQ_UNWIND, extra_cbmc=["--unwindset", "memcmp.0:200"],
                           params={"moving_kind": KINDS[kind], "white_to_move": side == 0}))
+    for pattern in (1, 2, 3):
+        for side in (0, 1):
+            name, src = inst_cmd(6, side, pattern)
+            js.append(Job(name, f"two position commands on one engine: {PATTERNS[pattern][1]}; any valid F, any legal m, {'white' if side == 0 else 'black'} to move: "
+                                "the result is that of the last command alone",
+                          gen=src, timeout=2400, mem_gb=16, weight_gb=2.5, checks="functional", witness=False, unwind=SEQ_UNWIND, extra_cbmc=["--unwindset", "memcmp.0:200"],
+                          params={"pattern": PATTERNS[pattern][0], "white_to_move": side == 0}))
     return js
 
 
